@@ -202,13 +202,22 @@ package json
 // The remainder of partial processing is a view of the same JSON value that hides everything the
 // caller had already hidden plus every property this step returned; a returned attribute was not
 // hidden before and is hidden afterwards (so a later step cannot return it again).
+// deepAttrs(v): the properties of a JSON body value in source order (objects flattened out of
+// arrays, duplicates kept): what collectDeepAttrs computes for the body itself. 'unpacked' is the
+// ghost set of the property values handed to unpackBlock.
+// verif:specfunc deepAttrs(v node) []*objectAttr
+// verif:ghostvar unpacked ifaceset
+// verif:pred unpackedUpTo(b *body, schema *hcl.BodySchema, ja []*objectAttr, n int) = forall j int, i int :: { ja[j], schema.Blocks[i] } 0 <= j && j < n && 0 <= i && i < len(schema.Blocks) && ja[j].Name == schema.Blocks[i].Type && !has(b.hiddenAttrs, ja[j].Name) && (forall a int :: { schema.Attributes[a] } 0 <= a && a < len(schema.Attributes) ==> schema.Attributes[a].Name != ja[j].Name) ==> in(ja[j].Value, unpacked)
 // verif:func (*body).collectDeepAttrs
 //@ trusted
 //@ assigns nothing
+//@ ensures labelName == nil ==> ret0 == deepAttrs(v)
+//@ ensures forall j int :: { ret0[j] } 0 <= j && j < len(ret0) ==> ret0[j] != nil
 // verif:func (*body).unpackBlock
 //@ trusted
 // (the blocks pointer designates the Blocks field of the content being built)
-//@ assigns allof(hcl.BodyContent.Blocks)
+//@ assigns allof(hcl.BodyContent.Blocks), unpacked
+//@ ensures in(v, unpacked) && (forall m iface :: { in(m, unpacked) } in(m, old(unpacked)) ==> in(m, unpacked))
 // verif:func (*body).MissingItemRange
 //@ trusted
 //@ pure
@@ -226,12 +235,27 @@ package json
 //@ requires schema != nil
 //@ ensures kind: typeis(ret1, ptr(body)) && unbox(ret1, ptr(body)) != nil && fresh(unbox(ret1, ptr(body))) && unbox(ret1, ptr(body)).val == b.val
 //@ ensures hiddenGrow: forall k string :: { has(b.hiddenAttrs, k) } has(b.hiddenAttrs, k) ==> has(unbox(ret1, ptr(body)).hiddenAttrs, k)
+// Every property that is visible (not hidden by an earlier step), is not an attribute of the schema
+// and is named like a block type of the schema is unpacked into blocks - each occurrence, not only
+// the first one of its name (JSON bodies may repeat a block type name, in one object or across the
+// objects of an array).
+//@ ensures blocksAll: unpackedUpTo(b, schema, deepAttrs(b.val), len(deepAttrs(b.val)))
 //@ ensures returnedHidden: ret0 != nil && (forall k string :: { has(ret0.Attributes, k) } has(ret0.Attributes, k) ==> !has(b.hiddenAttrs, k) && has(unbox(ret1, ptr(body)).hiddenAttrs, k))
 //@ loop 1 invariant usedNames != nil && fresh(usedNames) && (forall k string :: { visited(k) } visited(k) ==> has(usedNames, k))
 //@ loop 2 invariant forall k string :: { has(attrSchemas, k) } has(attrSchemas, k) ==> attrSchemas[k].Name == k
+//@ loop 2 invariant (forall k string :: { has(attrSchemas, k) } has(attrSchemas, k) ==> (exists a int :: { schema.Attributes[a] } 0 <= a && a <= rangeindex && schema.Attributes[a].Name == k))
+//@ loop 2 invariant rangeindex + 1 <= len(schema.Attributes)
 //@ loop 3 invariant forall k string :: { has(attrSchemas, k) } has(attrSchemas, k) ==> attrSchemas[k].Name == k
+//@ loop 3 invariant (forall k string :: { has(attrSchemas, k) } has(attrSchemas, k) ==> (exists a int :: { schema.Attributes[a] } 0 <= a && a < len(schema.Attributes) && schema.Attributes[a].Name == k))
+//@ loop 3 invariant (forall i int :: { schema.Blocks[i] } 0 <= i && i <= rangeindex ==> has(blockSchemas, schema.Blocks[i].Type))
+//@ loop 3 invariant rangeindex + 1 <= len(schema.Blocks)
 //@ loop 4 invariant (forall k string :: { has(attrSchemas, k) } has(attrSchemas, k) ==> attrSchemas[k].Name == k) && usedNames != nil && fresh(usedNames) && content != nil && fresh(content) && content.Attributes != nil && fresh(content.Attributes) && (forall k string :: { has(b.hiddenAttrs, k) } has(b.hiddenAttrs, k) ==> has(usedNames, k)) && (forall k string :: { has(content.Attributes, k) } has(content.Attributes, k) ==> !has(b.hiddenAttrs, k) && has(usedNames, k))
-//@ loop 5 invariant usedNames != nil && fresh(usedNames) && content != nil && fresh(content) && content.Attributes != nil && fresh(content.Attributes) && (forall k string :: { has(b.hiddenAttrs, k) } has(b.hiddenAttrs, k) ==> has(usedNames, k)) && (forall k string :: { has(content.Attributes, k) } has(content.Attributes, k) ==> !has(b.hiddenAttrs, k) && has(usedNames, k))
+//@ loop 4 invariant (forall k string :: { has(attrSchemas, k) } has(attrSchemas, k) ==> (exists a int :: { schema.Attributes[a] } 0 <= a && a < len(schema.Attributes) && schema.Attributes[a].Name == k))
+//@ loop 4 invariant (forall i int :: { schema.Blocks[i] } 0 <= i && i < len(schema.Blocks) ==> has(blockSchemas, schema.Blocks[i].Type))
+//@ loop 4 invariant jsonAttrs == deepAttrs(b.val)
+//@ loop 4 invariant rangeindex + 1 <= len(jsonAttrs)
+//@ loop 4 invariant unpackedUpTo(b, schema, jsonAttrs, rangeindex + 1)
+//@ loop 5 invariant usedNames != nil && fresh(usedNames) && content != nil && fresh(content) && content.Attributes != nil && fresh(content.Attributes) && (forall k string :: { has(b.hiddenAttrs, k) } has(b.hiddenAttrs, k) ==> has(usedNames, k)) && (forall k string :: { has(content.Attributes, k) } has(content.Attributes, k) ==> !has(b.hiddenAttrs, k) && has(usedNames, k)) && jsonAttrs == deepAttrs(b.val) && unpackedUpTo(b, schema, jsonAttrs, len(jsonAttrs))
 // JustAttributes never returns a property that an earlier partial step hid (nor the "//" comment key).
 // verif:func (*body).JustAttributes
 //@ nosafety
